@@ -1,0 +1,90 @@
+//go:build verif
+
+// Contracts for nested-message bridging (C19) and the Size/Marshal/Unmarshal dispatch of
+// package csproto (comment-only).  A message is known only through its interfaces: the
+// interface contracts below are the assumption consistent(m) - Size, MarshalTo, Marshal and
+// the runtimes' functions all speak about one abstract size gocv_msgSize(m) and one abstract
+// byte string gocv_msgByte(m, i); each generated type is proved to satisfy them (C04), for
+// runtime-only messages they are assumed of the runtime.
+
+package csproto
+
+//@ import proto "google.golang.org/protobuf/proto"
+
+// ---- interface contracts (assumed of every message handed in)
+
+//@ func (m Sizer) Size() (n int)
+//@   ensures n == gocv_msgSize(m) && n >= 0 && n <= maxLen
+
+//@ func (m ProtoV1Sizer) XXX_Size() (n int)
+//@   ensures n == gocv_msgSize(m) && n >= 0 && n <= maxLen
+
+//@ extern google.golang.org/protobuf/proto func Size(m proto.Message) (n int)
+//@   ensures n == gocv_msgSize(m) && n >= 0 && n <= maxLen
+
+//@ func (m MarshalerTo) MarshalTo(dest []byte) (err error)
+//@   requires len(dest) >= gocv_msgSize(m)
+//@   ensures  forall(i, 0, gocv_msgSize(m), implies(err == nil, dest[i] == gocv_msgByte(m, i)))
+//@   modifies dest[0:gocv_msgSize(m)]
+
+//@ func (m Marshaler) Marshal() (b []byte, err error)
+//@   ensures implies(err == nil, len(b) == gocv_msgSize(m) && (len(b) == 0 || gocv_fresh(b)))
+//@   ensures forall(i, 0, len(b), implies(err == nil, b[i] == gocv_msgByte(m, i)))
+
+//@ func (m ProtoV1Marshaler) XXX_Marshal(b []byte, deterministic bool) (r []byte, err error)
+//@   requires len(b) == 0
+//@   ensures implies(err == nil, len(r) == gocv_msgSize(m) && (len(r) == 0 || gocv_fresh(r) || gocv_view(r, b, 0, len(r))))
+//@   ensures forall(i, 0, len(r), implies(err == nil, r[i] == gocv_msgByte(m, i)))
+//@   modifies b[0:cap(b)]
+
+//@ extern google.golang.org/protobuf/proto func Marshal(m proto.Message) (b []byte, err error)
+//@   ensures implies(err == nil, len(b) == gocv_msgSize(m) && (len(b) == 0 || gocv_fresh(b)))
+//@   ensures forall(i, 0, len(b), implies(err == nil, b[i] == gocv_msgByte(m, i)))
+
+//@ func (m Unmarshaler) Unmarshal(b []byte) (err error)
+//@   ensures gocv_ghostOf(m).calls == old(gocv_ghostOf(m).calls)+1 && gotInput(m, b, 0, len(b)) && gocv_ghostOf(m).lastErr == err
+//@   modifies *gocv_ghostOf(m)
+
+//@ func (m ProtoV1Unmarshaler) XXX_Unmarshal(b []byte) (err error)
+//@   ensures gocv_ghostOf(m).calls == old(gocv_ghostOf(m).calls)+1 && gotInput(m, b, 0, len(b)) && gocv_ghostOf(m).lastErr == err
+//@   modifies *gocv_ghostOf(m)
+
+//@ extern google.golang.org/protobuf/proto func Unmarshal(b []byte, m proto.Message) (err error)
+//@   ensures gocv_ghostOf(m).calls == old(gocv_ghostOf(m).calls)+1 && gotInput(m, b, 0, len(b)) && gocv_ghostOf(m).lastErr == err
+//@   modifies *gocv_ghostOf(m)
+
+// ---- dispatch functions
+
+//@ func Size(msg interface{}) (n int)
+//@   ensures implies(isSizable(msg), n == gocv_msgSize(msg) && n >= 0 && n <= maxLen)
+//@   ensures implies(!isSizable(msg), n == 0)
+
+//@ func Marshal(msg interface{}) (b []byte, err error)
+//@   ensures implies(!canMarshal(msg), err == ErrMarshaler && b == nil)
+//@   ensures implies(err == nil, len(b) == gocv_msgSize(msg) && (len(b) == 0 || gocv_fresh(b)))
+//@   ensures forall(i, 0, len(b), implies(err == nil, b[i] == gocv_msgByte(msg, i)))
+
+//@ func Unmarshal(data []byte, msg interface{}) (err error)
+//@   ensures implies(!canUnmarshal(msg), err == ErrUnmarshaler && gocv_ghostOf(msg).calls == old(gocv_ghostOf(msg).calls))
+//@   ensures implies(canUnmarshal(msg), gocv_ghostOf(msg).calls == old(gocv_ghostOf(msg).calls)+1 && gotInput(msg, data, 0, len(data)) && gocv_ghostOf(msg).lastErr == err)
+//@   modifies *gocv_ghostOf(msg)
+
+// ---- the bridging itself
+
+//@ func (e *Encoder) EncodeNested(tag int, m interface{}) (err error)
+//@   requires isSizable(m)
+//@   requires room(e, keyLen(tag, WireTypeLengthDelimited)+vlen(uint64(gocv_msgSize(m)))+gocv_msgSize(m))
+//@   ensures  implies(err == nil, e.offset == old(e.offset)+keyLen(tag, WireTypeLengthDelimited)+vlen(uint64(gocv_msgSize(m)))+gocv_msgSize(m))
+//@   ensures  implies(err == nil, hasKey(e.p, old(e.offset), tag, WireTypeLengthDelimited) && isVarintOf(e.p, old(e.offset)+keyLen(tag, WireTypeLengthDelimited), uint64(gocv_msgSize(m))))
+//@   ensures  forall(i, 0, gocv_msgSize(m), implies(err == nil, byteAt(e.p, old(e.offset)+keyLen(tag, WireTypeLengthDelimited)+vlen(uint64(gocv_msgSize(m)))+i) == gocv_msgByte(m, i)))
+//@   modifies e.offset, e.p[e.offset : e.offset+keyLen(tag, WireTypeLengthDelimited)+vlen(uint64(gocv_msgSize(m)))+gocv_msgSize(m)]
+
+//@ func (d *Decoder) DecodeNested(m interface{}) (err error)
+//@   requires decOK(d)
+//@   ensures  decOK(d)
+//@   ensures  implies(lenDelimTooLong(d.p, old(d.offset)) || varintTruncated(d.p, old(d.offset)), err != nil && gocv_ghostOf(m).calls == old(gocv_ghostOf(m).calls))
+//@   ensures  implies(err == nil, lenDelimOK(d.p, old(d.offset)) && d.offset == lenDelimEnd(d.p, old(d.offset)))
+//@   ensures  implies(err == nil && canUnmarshal(m), gocv_ghostOf(m).calls == old(gocv_ghostOf(m).calls)+1 && gotInput(m, d.p, lenDelimStart(d.p, old(d.offset)), lenDelimEnd(d.p, old(d.offset))))
+//@   ensures  implies(gocv_ghostOf(m).calls == old(gocv_ghostOf(m).calls)+1, err == gocv_ghostOf(m).lastErr)
+//@   ensures  implies(lenDelimStrict(d.p, old(d.offset)) && canUnmarshal(m), gocv_ghostOf(m).calls == old(gocv_ghostOf(m).calls)+1)
+//@   modifies d.offset, *gocv_ghostOf(m)
